@@ -63,6 +63,7 @@ func reachesCallee(u *Universe, f *ssa.Function, full string) bool {
 func laRunKind(c *Ctx) {
 	laRunKindCore(c)
 	laRLEThresholds(c)
+	laRLEDecoder(c, map[string]bool{"accepts": true, "unpack-all": true})
 }
 
 func laRunKindCore(c *Ctx) {
@@ -1382,13 +1383,30 @@ func laRLEThresholds(c *Ctx) {
 			}
 			kv, _ := constant.Int64Val(k.Value)
 			rej := int64(-1) // rejects widths >= rej
+			hi := b.Succs[0] // the edge on which width >= rej
 			switch bo.Op {
 			case token.GTR:
 				rej = kv + 1
 			case token.GEQ:
 				rej = kv
+			case token.LEQ:
+				rej, hi = kv+1, b.Succs[1]
+			case token.LSS:
+				rej, hi = kv, b.Succs[1]
 			}
 			if rej < 0 {
+				continue
+			}
+			// that edge ends in an error return
+			refuses := false
+			if ri := errIndex(newFn.Signature); ri >= 0 {
+				for _, blk := range append([]*ssa.BasicBlock{hi}, reachableBlocks(hi)...) {
+					if ret, ok := lastInstr(blk).(*ssa.Return); ok && (blk == hi || hi.Dominates(blk)) && !isNilConst(ret.Results[ri]) {
+						refuses = true
+					}
+				}
+			}
+			if !refuses {
 				continue
 			}
 			found = true
